@@ -115,6 +115,51 @@ Definition merge_group (base : achunk) (others : list achunk) : option (list och
     end
   end.
 
+(* ---- dedupChunksIterator.Next over all chunks of the merged series ----
+   [chunks] are the chunks of all input series in the order the heap pops them
+   (by MinTime). A group = the first chunk (base) and the following chunks whose
+   MinTime is not beyond the group's MaxTime so far; a chunk that is byte-identical
+   to the previously added one (same time range) is skipped. A group without
+   added count aggregates is passed through unchanged. The chunks produced for a
+   group all precede the next input chunk, so pushing the group's remaining
+   output chunks back into the heap returns them unchanged and in order. *)
+Definition c_count (c : achunk) : list sample := match aggr 0 c with Some l => l | None => [] end.
+Definition c_mint (c : achunk) : Z := first_t (c_count c).
+Definition c_maxt (c : achunk) : Z := last_t (c_count c).
+Definition samples_eqb := list_eqb sample_eqb.
+Definition achunk_eqb (a b : achunk) : bool := list_eqb (option_eqb samples_eqb) a b.
+
+Fixpoint take_group (omax : Z) (prev : achunk) (rest : list achunk) : list achunk * list achunk :=
+  match rest with
+  | [] => ([], [])
+  | c :: r =>
+    if c_mint c >? omax then ([], rest)
+    else if achunk_eqb c prev then take_group omax prev r
+    else let '(g, r') := take_group (Z.max omax (c_maxt c)) c r in (c :: g, r')
+  end.
+
+Definition om_empty (g : list achunk) : bool :=
+  forallb (fun c => match aggr 0 c with None => true | Some _ => false end) g.
+Definition passthrough (c : achunk) : ochunk := (c_mint c, c_maxt c, c).
+
+Fixpoint merge_series_loop (fuel : nat) (chunks : list achunk) : option (list ochunk) :=
+  match chunks with
+  | [] => Some []
+  | base :: rest =>
+    match fuel with
+    | O => None
+    | S f =>
+      let '(grp, rest') := take_group (c_maxt base) base rest in
+      let og := if om_empty grp then Some [passthrough base] else merge_group base grp in
+      match og, merge_series_loop f rest' with
+      | Some a, Some b => Some (a ++ b)
+      | _, _ => None
+      end
+    end
+  end.
+Definition merge_series (chunks : list achunk) : option (list ochunk) :=
+  merge_series_loop (List.length chunks) chunks.
+
 (* ---- source facts (tie T) ---- *)
 Open Scope string_scope.
 Definition to_chunk_shape_ok : bool :=
@@ -175,27 +220,17 @@ Definition dec_ochunk (base : Z) (oc : enc_ochunk) : ochunk :=
 Inductive case :=
 | Case (base : Z) (chunks : list enc_chunk) (out : list enc_ochunk).
 
-Definition samples_eqb := list_eqb sample_eqb.
 Definition ochunk_eqb (a b : ochunk) : bool :=
   let '(m1, x1, l1) := a in let '(m2, x2, l2) := b in
   (m1 =? m2) && (x1 =? x2) && list_eqb (option_eqb samples_eqb) l1 l2.
 
-Definition case_input (c : case) : option (achunk * list achunk) :=
-  match c with
-  | Case base chunks _ =>
-    match map (dec_chunk base) chunks with
-    | [] => None
-    | b :: o => Some (b, o)
-    end
-  end.
+Definition case_input (c : case) : list achunk :=
+  match c with Case base chunks _ => map (dec_chunk base) chunks end.
 Definition case_output (c : case) : list ochunk :=
   match c with Case base _ out => map (dec_ochunk base) out end.
 
 Definition corr_ok (c : case) : bool :=
-  match case_input c with
-  | None => false
-  | Some (b, o) => option_eqb (list_eqb ochunk_eqb) (merge_group b o) (Some (case_output c))
-  end.
+  option_eqb (list_eqb ochunk_eqb) (merge_series (case_input c)) (Some (case_output c)).
 
 (* well-formed downsampled input chunk: all five aggregates present, count
    timestamps strictly increasing, sum/min/max at exactly the count's timestamps,
@@ -222,8 +257,4 @@ Definition ochunk_ok (oc : ochunk) : bool :=
   end.
 
 Definition pred_ok (c : case) : bool :=
-  match case_input c with
-  | None => false
-  | Some (b, o) =>
-      if wf_chunk b && forallb wf_chunk o then forallb ochunk_ok (case_output c) else true
-  end.
+  if forallb wf_chunk (case_input c) then forallb ochunk_ok (case_output c) else true.
